@@ -1,6 +1,6 @@
 (* SchedTheorems.v — the statements of property C16 on the model, for EVERY program set accepted by the discipline
    check, every configuration, any number of workers with any scripts, and EVERY schedule (any list of thread ids). *)
-From PG Require Import Common.Tactics Model.Sched Model.SchedDisc Proofs.SchedBase Proofs.SchedMutex Proofs.SchedSound.
+From PG Require Import Common.Tactics Model.Sched Model.SchedDisc Proofs.SchedBase Proofs.SchedMutex Proofs.SchedSound Proofs.SchedSound2 Proofs.SchedSound3.
 
 Lemma sumz_zero : forall f ts, (forall th, In th ts -> f th = 0%Z) -> sumz f ts = 0%Z.
 Proof. induction ts; simpl; intros; auto. rewrite H, IHts; auto. Qed.
@@ -10,6 +10,23 @@ Proof. unfold cntb. induction ts; simpl; intros; auto. rewrite H; auto. Qed.
 
 Lemma filter_split : forall (p : trial -> bool) l, length (filter p l) + length (filter (fun x => negb (p x)) l) = length l.
 Proof. induction l; cbn [filter]; auto. destruct (p a); cbn [negb length]; lia. Qed.
+
+Lemma cntb_pos_ex' : forall f l, cntb f l > 0 -> exists t th, nth_error l t = Some th /\ f th = true.
+Proof.
+  unfold cntb. induction l as [|a l IH]; cbn [filter]; intros. simpl in H. lia.
+  destruct (f a) eqn:E. exists 0, a. auto. destruct (IH H) as [t [th [A B]]]. exists (S t), th. auto.
+Qed.
+
+Lemma cntb_two_ex : forall f l, cntb f l >= 2 ->
+  exists t1 t2 th1 th2, t1 <> t2 /\ nth_error l t1 = Some th1 /\ nth_error l t2 = Some th2 /\ f th1 = true /\ f th2 = true.
+Proof.
+  unfold cntb. induction l as [|a l IH]; cbn [filter]; intros.
+  - simpl in H. lia.
+  - destruct (f a) eqn:E.
+    + cbn [length] in H. assert (Hp : cntb f l > 0) by (unfold cntb; lia).
+      destruct (cntb_pos_ex' f l Hp) as [t2 [th2 [A B]]]. exists 0, (S t2), a, th2. repeat split; auto.
+    + destruct (IH H) as [t1 [t2 [th1 [th2 [A [B [C1 [D E1]]]]]]]]. exists (S t1), (S t2), th1, th2. repeat split; auto.
+Qed.
 
 Section Theorems.
 Variable ps : progs.
@@ -122,6 +139,140 @@ Proof.
   assert (E3 : s_inf (studies (fst st) 0) = countp t_inf (s_trials (studies (fst st) 0))) by (rewrite <- gi_infc0; ring).
   repeat split; auto.
   rewrite E1, E2. unfold countp. rewrite <- Nat2Z.inj_add. f_equal. apply filter_split.
+Qed.
+
+
+(* ---- all three layers together ---------------------------------------------------------------------------------------- *)
+Record InvAll (g : gstate) (ts : list tstate) : Prop := { ia_1 : Inv ps c g ts; ia_2 : Inv2 ps g ts; ia_3 : GI3 g ts }.
+
+Lemma InvAll_init : forall ws, InvAll (fst (init_state c ws)) (snd (init_state c ws)).
+Proof.
+  intros ws. pose proof (Inv_init ws) as H1. simpl in *.
+  assert (Hth : forall th, In th (map (fun w => thread0 (fst (fst w)) (snd (fst w)) (snd w)) ws) -> exists gr gn s, th = thread0 gr gn s).
+  { intros th Hin. apply in_map_iff in Hin. destruct Hin as [w [A B]]. eauto. }
+  constructor; auto.
+  - constructor.
+    + constructor; simpl; auto; try (intros; discriminate).
+      * intros i x Hn. destruct i; discriminate.
+      * intros t th i Hn Hl. apply nth_error_In in Hn. destruct (Hth _ Hn) as [gr [gn [s E]]]. subst. discriminate.
+      * intros i x r Hn. destruct i; discriminate.
+      * intros i x Hn. destruct i; discriminate.
+    + intros t th Hn. apply nth_error_In in Hn. destruct (Hth _ Hn) as [gr [gn [s E]]]. subst.
+      destruct (entry_ann ps HD P_init false) as [x [A B]]. exists x. split. unfold cur_a. simpl. exact A.
+      eapply sat2_leq; eauto. apply sat2_a0.
+  - constructor.
+    + intros t th j Hn Hl. apply nth_error_In in Hn. destruct (Hth _ Hn) as [gr [gn [s E]]]. subst. discriminate.
+    + intros t th i Hn Hc. apply nth_error_In in Hn. destruct (Hth _ Hn) as [gr [gn [s E]]]. subst. discriminate.
+Qed.
+
+Lemma InvAll_step : forall g ts t g' ts', InvAll g ts -> step1 ps c g ts t = Some (g', ts') -> InvAll g' ts'.
+Proof.
+  intros g ts t g' ts' [H1 H2 H3] Hs. constructor.
+  - eapply Inv_step; eauto.
+  - eapply Inv2_step; eauto.
+  - eapply GI3_step; eauto.
+Qed.
+
+Theorem InvAll_run : forall ws sched, InvAll (fst (run ps c (init_state c ws) sched)) (snd (run ps c (init_state c ws) sched)).
+Proof.
+  intros. destruct (init_state c ws) as [g ts] eqn:E.
+  apply run_invariant with (P := InvAll).
+  - intros. eapply InvAll_step; eauto.
+  - pose proof (InvAll_init ws). rewrite E in H. auto.
+Qed.
+
+(* C16, same group: in EVERY reachable state a group has at most one pending trial (so all its workers are given that one
+   until it is finished), and the trial a worker holds is a trial of the worker's own group *)
+Theorem same_group_same_trial : forall ws sched,
+  let st := run ps c (init_state c ws) sched in
+  (forall i j xi xj, nth_error (trials_of st) i = Some xi -> nth_error (trials_of st) j = Some xj ->
+     t_done xi = false -> t_done xj = false -> t_group xi = t_group xj -> i = j) /\
+  (forall t th i, nth_error (snd st) t = Some th -> r_cur th = Some i ->
+     exists x, nth_error (trials_of st) i = Some x /\ t_group x = r_group th).
+Proof.
+  intros. pose proof (InvAll_run ws sched) as HA. fold st in HA. destruct HA as [H1 H2 H3].
+  pose proof (i2_gi _ _ _ H2) as G2. unfold trials_of. fold (T (fst st)). split.
+  - intros i j xi xj Hi Hj Pi Pj Hg.
+    assert (Hcase : forall i j xi xj, nth_error (T (fst st)) i = Some xi -> nth_error (T (fst st)) j = Some xj ->
+              t_done xi = false -> t_done xj = false -> t_group xi = t_group xj ->
+              lat (fst st) (t_group xi) = Some i -> (exists t th, nth_error (snd st) t = Some th /\ g_lat (gh th) = Some j) -> False).
+    { intros i0 j0 x0 y0 A0 B0 P0 Q0 G0 L0 [t [th [Ht Hl]]].
+      destruct (g2_latlock _ _ G2 _ _ _ Ht Hl) as [_ [y [Y1 Y2]]]. rewrite B0 in Y1. inv Y1.
+      pose proof (g3_latdone _ _ H3 _ _ _ Ht Hl) as Hd. rewrite <- Y2, <- G0, L0 in Hd. destruct Hd as [z [Z1 Z2]]. rewrite A0 in Z1. inv Z1. congruence. }
+    destruct (g2_same _ _ G2 _ _ Hi Pi) as [Li | Fi]; destruct (g2_same _ _ G2 _ _ Hj Pj) as [Lj | Fj].
+    + rewrite Hg in Li. congruence.
+    + exfalso. eapply (Hcase i j); eauto.
+    + exfalso. eapply (Hcase j i); eauto.
+    + destruct Fi as [t1 [th1 [A1 B1]]]. destruct Fj as [t2 [th2 [A2 B2]]].
+      destruct (g2_latlock _ _ G2 _ _ _ A1 B1) as [K1 _]. destruct (g2_latlock _ _ G2 _ _ _ A2 B2) as [K2 _].
+      assert (t1 = t2) by (eapply LockInv_mutex with (k := KStudy 0); eauto; apply (inv_lock _ _ _ _ H1)). subst. rewrite A1 in A2. inv A2. congruence.
+  - intros t th i Hn Hc. eapply (g3_curgroup _ _ H3); eauto.
+Qed.
+
+(* C16, best trial: in every state the best trial is a completed feasible trial with a final measurement (an infeasible trial
+   is never best); when all workers have finished no completed feasible trial has a larger reward *)
+Theorem best_trial_max : forall ws sched,
+  let st := run ps c (init_state c ws) sched in
+  (forall b, s_best (study0_of st) = Some b ->
+     exists xb rb, nth_error (trials_of st) b = Some xb /\ t_done xb = true /\ t_inf xb = false /\ t_final xb = Some rb) /\
+  (finished (snd st) = true -> forall i x r, nth_error (trials_of st) i = Some x -> t_done x = true -> t_inf x = false -> t_final x = Some r ->
+     exists b xb rb, s_best (study0_of st) = Some b /\ nth_error (trials_of st) b = Some xb /\ t_final xb = Some rb /\ (r <= rb)%Z).
+Proof.
+  intros. pose proof (InvAll_run ws sched) as HA. fold st in HA. destruct HA as [H1 H2 H3].
+  pose proof (i2_gi _ _ _ H2) as G2. unfold trials_of, study0_of. fold (T (fst st)). fold (St (fst st)). split.
+  - intros b Hb. destruct (g2_best1 _ _ G2 _ Hb) as [xb [rb [A [B [C1 [D _]]]]]]. eauto 8.
+  - intros Hfin i x r Hn Hd Hi Hf. destruct (g2_best2 _ _ G2 _ _ _ Hn Hd Hi Hf) as [[t [th [A [B C1]]]] | H]; auto.
+    exfalso. unfold finished in Hfin. rewrite forallb_forall in Hfin. pose proof (Hfin _ (nth_error_In _ _ A)) as Hp.
+    destruct (pc th) eqn:Epc; try discriminate.
+    destruct (inv_th _ _ _ _ H1 _ _ A) as [a [A1 B1]]. unfold cur_a in A1. rewrite Epc in A1. inv A1.
+    rewrite (s_dbest _ _ _ _ B1) in C1. discriminate.
+Qed.
+
+(* C16, one study per name *)
+Theorem single_study : forall ws sched, nstudies (fst (run ps c (init_state c ws) sched)) <= 1.
+Proof.
+  intros. pose proof (InvAll_run ws sched) as HA. destruct HA as [H1 H2 H3].
+  set (st := run ps c (init_state c ws) sched) in *.
+  pose proof (inv_gi _ _ _ _ H1) as G1. pose proof (i2_gi _ _ _ H2) as G2.
+  rewrite (gi_nst _ _ _ G1).
+  destruct (registry (fst st)) eqn:Er.
+  - rewrite cntb_all_false. lia. intros t th Hn. destruct (g_reg (gh th)) eqn:E; auto.
+    pose proof (g2_regnone _ _ G2 _ _ Hn E). congruence.
+  - destruct (le_lt_dec (cntb (fun th => g_reg (gh th)) (snd st)) 1); auto. exfalso.
+    assert (Hex : exists t1 t2 th1 th2, t1 <> t2 /\ nth_error (snd st) t1 = Some th1 /\ nth_error (snd st) t2 = Some th2 /\ g_reg (gh th1) = true /\ g_reg (gh th2) = true).
+    { apply cntb_two_ex. lia. }
+    destruct Hex as [t1 [t2 [th1 [th2 [A [B [C1 [D E]]]]]]]]. apply A.
+    eapply LockInv_mutex with (k := KReg); eauto. apply (inv_lock _ _ _ _ H1); eapply (gi_reglock _ _ _ G1); eauto.
+    eapply (gi_reglock _ _ _ G1); eauto. eapply (gi_reglock _ _ _ G1); eauto.
+Qed.
+
+(* C16, the list of reports to the algorithm (ghost): no trial appears twice, ever; at quiescence it contains exactly the
+   completed feasible trials *)
+Theorem reports_exact : forall ws sched,
+  let st := run ps c (init_state c ws) sched in
+  NoDup (a_fed (alg (fst st))) /\
+  (finished (snd st) = true -> forall i x, nth_error (trials_of st) i = Some x ->
+     (In (0, t_id x) (a_fed (alg (fst st))) <-> (t_done x = true /\ t_inf x = false))).
+Proof.
+  intros. pose proof (InvAll_run ws sched) as HA. fold st in HA. destruct HA as [H1 H2 H3].
+  pose proof (i2_gi _ _ _ H2) as G2. pose proof (inv_gi _ _ _ _ H1) as G1.
+  split.
+  - apply (NoDup_count_occ pdec). intros [s k].
+    destruct (in_dec pdec (s, k) (a_fed (alg (fst st)))) as [Hin | Hnin].
+    + pose proof (g2_fedbound _ _ G2) as Hb. rewrite Forall_forall in Hb. destruct (Hb _ Hin) as [A B]. simpl in *. subst.
+      assert (Hk : k - 1 < length (T (fst st))) by lia.
+      destruct (nth_error (T (fst st)) (k - 1)) as [x|] eqn:Ex; [| apply nth_error_None in Ex; lia].
+      assert (Hid : t_id x = k).
+      { pose proof (gi_ids _ _ _ G1) as Hids.
+        assert (E : nth_error (map t_id (T (fst st))) (k - 1) = Some (t_id x)) by (erewrite map_nth_error; eauto).
+        rewrite Hids in E. rewrite nth_error_nth' with (d := 0) in E by (rewrite seq_length; auto). inv E. rewrite seq_nth; auto. lia. }
+      rewrite <- Hid. rewrite (g2_fedlist _ _ G2 _ _ Ex).
+      pose proof (gi_fed _ _ _ G1 _ _ Ex). destruct (t_done x && negb (t_inf x)); lia.
+    + rewrite (count_occ_not_In pdec) in Hnin. lia.
+  - intros Hfin i x Hn. unfold trials_of in Hn. fold (T (fst st)) in Hn.
+    pose proof (g2_fedlist _ _ G2 _ _ Hn) as Hc.
+    destruct (feedback_exactly_once ws sched) as [_ Hq]. fold st in Hq. specialize (Hq Hfin _ _ Hn). rewrite Hq in Hc.
+    rewrite (count_occ_In pdec). rewrite Hc. destruct (t_done x), (t_inf x); simpl; split; intros; try lia; try tauto; destruct H; discriminate.
 Qed.
 
 End Theorems.
